@@ -92,7 +92,7 @@ func checkErrorPrecedence(c *Ctx, rule string) {
 			kind := "drop_oldest: too few droppable items"
 			for _, pc := range dominatingConds(ld.Block(), nil) {
 				if bo, ok := pc.Cond.(*ssa.BinOp); ok {
-					if _, f, ok := fieldOfLoad(bo.X); ok && f == "dropPolicy" {
+					if _, f, ok := fieldOfLoad(bo.X); ok && f == p.rolesOf("MemoryStore").dropPolicy {
 						if a := condAtom(bo, pc.Val); a.Op.String() == "!=" {
 							kind = "reject policy"
 						}
